@@ -79,6 +79,11 @@ impl StreamMon {
     }
 }
 
+/// "Even under write back-pressure" read as bounded promptness: an acknowledgement waits
+/// for transport capacity, not behind an unbounded amount of other traffic. h2 encodes it
+/// before anything else (0); the limit leaves room for implementations that do not.
+pub const ACK_OVERTAKE_LIMIT: u64 = 4;
+
 pub struct EpMon {
     pub side: usize,
     pub is_client: bool,
@@ -87,6 +92,11 @@ pub struct EpMon {
     pub out_idx: usize,
     pub peer_acked: SettingsView,
     pub peer_pending: VecDeque<Vec<(u16, u32)>>,
+    /// frames_out_other at the instant each still unanswered SETTINGS / PING was processed
+    pub peer_pending_mark: VecDeque<u64>,
+    pub pings_in_mark: VecDeque<u64>,
+    /// frames E encoded, GOAWAY excluded
+    pub frames_out_other: u64,
     pub own_sent: VecDeque<Vec<(u16, u32)>>,
     pub own_acked: SettingsView,
     pub own_iws_max: u32,
@@ -101,6 +111,8 @@ pub struct EpMon {
     pub last_local_id: u32,
     pub max_peer_id: u32,
     pub goaway_out: Vec<(u32, u32, usize)>,
+    /// executor step at which each GOAWAY was encoded
+    pub goaway_out_step: Vec<u64>,
     pub goaway_in: Vec<(u32, u32, Vec<u8>)>,
     pub out_dec: RefDecoder,
     pub in_block_open: Option<u32>,
@@ -132,6 +144,9 @@ impl EpMon {
             out_idx: 0,
             peer_acked: SettingsView::default(),
             peer_pending: VecDeque::new(),
+            peer_pending_mark: VecDeque::new(),
+            pings_in_mark: VecDeque::new(),
+            frames_out_other: 0,
             own_sent: VecDeque::new(),
             own_acked: SettingsView::default(),
             own_iws_max: 65_535,
@@ -146,6 +161,7 @@ impl EpMon {
             last_local_id: 0,
             max_peer_id: 0,
             goaway_out: Vec::new(),
+            goaway_out_step: Vec::new(),
             goaway_in: Vec::new(),
             out_dec: RefDecoder::new(4096),
             in_block_open: None,
@@ -337,11 +353,15 @@ impl Monitor {
                 } else if f.payload.len() % 6 == 0 {
                     e.settings_in += 1;
                     e.peer_pending.push_back(f.settings());
+                    let m = e.frames_out_other;
+                    e.peer_pending_mark.push_back(m);
                 }
             }
             PING => {
                 if f.sid == 0 && !f.is_ack() && f.payload.len() == 8 {
                     e.pings_in.push_back(f.payload.clone());
+                    let m = e.frames_out_other;
+                    e.pings_in_mark.push_back(m);
                 }
             }
             WINDOW_UPDATE => {
@@ -454,6 +474,9 @@ impl Monitor {
         let f = &group[0];
         let who = name(side);
         self.ep[side].frames_out += 1;
+        if f.ty != GOAWAY {
+            self.ep[side].frames_out_other += 1;
+        }
         // ---- C12: frame size limit acknowledged by E
         let mfs = self.ep[side].peer_acked.mfs as usize;
         for g in group {
@@ -521,6 +544,12 @@ impl Monitor {
             }
             let e = &mut self.ep[side];
             let popped = e.peer_pending.pop_front();
+            // frames_out_other already counts this acknowledgement
+            let overtaken = e.peer_pending_mark.pop_front().map(|m| e.frames_out_other.saturating_sub(m + 1)).unwrap_or(0);
+            if overtaken > ACK_OVERTAKE_LIMIT {
+                self.viol("C14", "settings-ack-overtaken", "", format!("{} encoded {} other frames between processing a SETTINGS frame and acknowledging it", who, overtaken));
+            }
+            let e = &mut self.ep[side];
             match popped {
                 None => {
                     let (a, b) = (e.settings_acks_out, e.settings_in);
@@ -572,6 +601,11 @@ impl Monitor {
         if f.is_ack() {
             let e = &mut self.ep[side];
             e.ping_acks_out += 1;
+            let overtaken = e.pings_in_mark.pop_front().map(|m| e.frames_out_other.saturating_sub(m + 1)).unwrap_or(0);
+            if overtaken > ACK_OVERTAKE_LIMIT {
+                self.viol("C14", "ping-ack-overtaken", "", format!("{} encoded {} other frames between processing a PING and acknowledging it", who, overtaken));
+            }
+            let e = &mut self.ep[side];
             match e.pings_in.pop_front() {
                 None => self.viol("C14", "ping-ack-unsolicited", "", format!("{} emitted a PING ACK that answers no processed PING", who)),
                 Some(p) => {
@@ -586,12 +620,14 @@ impl Monitor {
     fn out_goaway(&mut self, side: usize, f: &RawFrame) {
         let who = name(side);
         let now = self.now_ns;
+        let ev_step = self.ev_step;
         if let (Some(l), Some(c)) = (f.u32_at(0), f.u32_at(4)) {
             let l = l & 0x7fff_ffff;
             let e = &mut self.ep[side];
             let prev = e.goaway_out.last().map(|x| x.0);
             let in_idx = e.in_idx;
             e.goaway_out.push((l, c, in_idx));
+            e.goaway_out_step.push(ev_step);
             if c != 0 && e.goaway_time.is_none() {
                 e.goaway_time = Some(now);
             }
@@ -995,6 +1031,24 @@ impl Monitor {
                 continue;
             }
             let who = name(side);
+            // C14: an acknowledgement may stay owed only because the connection ended before
+            // it could be written; an endpoint that went on encoding other frames after it had
+            // processed the SETTINGS / PING, and never the acknowledgement, has skipped it
+            {
+                let e = &self.ep[side];
+                let pending_events = e.events.len();
+                let out = e.frames_out_other;
+                let s_skipped = e.peer_pending_mark.front().map(|m| out - *m).unwrap_or(0);
+                let p_skipped = e.pings_in_mark.front().map(|m| out - *m).unwrap_or(0);
+                // the acknowledgement itself is the first thing h2 encodes; two frames of slack
+                // keep the oracle independent of that ordering detail
+                if pending_events == 0 && s_skipped > 2 {
+                    self.viol("C14", "settings-ack-skipped", "", format!("{} processed a SETTINGS frame, encoded {} further frames afterwards and never its acknowledgement", who, s_skipped));
+                }
+                if pending_events == 0 && p_skipped > 2 {
+                    self.viol("C14", "ping-ack-skipped", "", format!("{} processed a PING, encoded {} further frames afterwards and never its acknowledgement", who, p_skipped));
+                }
+            }
             if quiescent_clean[side] {
                 // C14: nothing owed
                 let e = &self.ep[side];
